@@ -73,7 +73,7 @@ fn slice_last(prev: &[Poplar1AggregationParam]) -> (r: &Poplar1AggregationParam)
 
 def unit():
     u = VUnit('poplar1_aggparam', 'Poplar1::is_agg_param_valid: strict level increase over the most recent parameter + every prefix extends one of its candidates')
-    u.oracle = {'inject': 'src/vdaf/poplar1.rs', 'file': 'poplar1_oracle.rs', 'test': 'verif_oracle_poplar1::oracle_agg_param_rule'}
+    u.oracle = {'inject': 'src/vdaf/poplar1.rs', 'file': 'poplar1_oracle.rs', 'test': 'verif_oracle_poplar1::oracle_agg_param_'}
     u.raw(PRELUDE, 'abstract-input')
     u.struct_item(F, ['pub struct Poplar1AggregationParam'])
     u.item(F, ['impl<P: Xof<SEED_SIZE>, const SEED_SIZE: usize> Aggregator<SEED_SIZE, 16> for Poplar1<P, SEED_SIZE>', 'fn is_agg_param_valid'], ret='r', attrs='#[verifier::loop_isolation(false)]',
